@@ -290,7 +290,9 @@ def runSeekCase (j : Json) : Json :=
         ("monotone", toJson (Spec.datedMonotone F ts)),
         ("undatedRun", toJson (Spec.longestUndatedRun F ts)),
         ("longestLine", toJson (Spec.longestLine F)),
-        ("windowOk", toJson h4)]
+        ("windowOk", toJson h4),
+        ("emptyUndated", toJson (starts.all fun s => !(F.isLF s) || (ts s).isNone)),
+        ("endUndated", toJson (ts F.len).isNone)]
       let m := match applyToFile K F ts since with
         | .ok p => Json.mkObj [("pos", toJson p)]
         | .error e => Json.mkObj [("err", seekErrJson e)]
